@@ -24,6 +24,7 @@ type Step struct {
 	J        *dbh.JoinQuery `json:"j,omitempty"`
 	Bad      string         `json:"bad,omitempty"` // a statement that fails: "unknown-column" | "type-error" | "unknown-table"
 	Conflict bool           `json:"conflict,omitempty"`
+	Shared   bool           `json:"shared,omitempty"` // with Conflict: the parked transaction only reads the table (shared locks), so the statement's scan succeeds and its lock upgrade is refused
 	End      string         `json:"end"` // commit | abort
 	Repeat   int            `json:"repeat,omitempty"`
 }
@@ -152,7 +153,12 @@ func run(c *Case, st *stats) *vf.Failure {
 				default:
 					v = dbh.StrV("parked")
 				}
-				parked.Exec(&dbh.Stmt{Kind: "update", Table: def.Name, Set: []dbh.SetItem{{Col: col.Name, V: v}}})
+				if sp.Shared {
+					parked.Exec(&dbh.Stmt{Kind: "select", Table: def.Name})
+					st.classes["conflict-with-reader"] = true
+				} else {
+					parked.Exec(&dbh.Stmt{Kind: "update", Table: def.Name, Set: []dbh.SetItem{{Col: col.Name, V: v}}})
+				}
 			}
 			before := db.PinnedPages()
 			t := db.Begin()
@@ -272,7 +278,7 @@ func genCase(t *rapid.T) *Case {
 	for i := 0; i < ns; i++ {
 		sp := Step{End: rapid.SampledFrom([]string{"commit", "commit", "abort"}).Draw(t, "end")}
 		def := &c.Defs[rapid.IntRange(0, 1).Draw(t, "tbl")]
-		switch k := rapid.IntRange(0, 11).Draw(t, "kind"); {
+		switch k := rapid.IntRange(0, 12).Draw(t, "kind"); {
 		case k <= 2:
 			s := sqlgen.Select(t, def, prof)
 			sp.S = &s
@@ -309,15 +315,19 @@ func genCase(t *rapid.T) *Case {
 			sp.Bad = rapid.SampledFrom([]string{"unknown-column", "type-error", "unknown-table"}).Draw(t, "bad")
 		default:
 			s := sqlgen.Update(t, def, prof)
+			if rapid.Bool().Draw(t, "cdel") {
+				s = sqlgen.Delete(t, def, prof)
+			}
 			sp.S = &s
 			sp.Conflict = true
+			sp.Shared = rapid.Bool().Draw(t, "cshared")
 		}
 		c.Steps = append(c.Steps, sp)
 	}
 	return c
 }
 
-const rule = "Case = (two or three tables with skip-list / no indexes, 0-250 rows each, pool from the minimum (3 frames per skip-list index + 8) to +60 frames; 1-10 steps: SELECT (sequential / index range scans, selection, projection), INSERT (also 30x repeated with rows that allocate new heap pages), UPDATE (in place and relocating), DELETE, join queries (hash / index / nested loop join as the optimizer chooses under the tables' statistics states none / computed after 2 rows / fresh, 5x repeated), statistics updates, statements that fail (unknown column/table, type error), statements aborted by a lock conflict with a parked transaction; each ended by commit or abort). Oracle: with no other transaction active, every page with a positive pin count in BufferPoolManager.GetPages() after the statement and its commit/abort already had a positive pin count before it (pin-count growth on pages that were pinned before is recorded as a class, not a violation). Non-trivial = a statement that was planned and executed (plan shape recorded as class)."
+const rule = "Case = (two or three tables with skip-list / no indexes, 0-250 rows each, pool from the minimum (3 frames per skip-list index + 8) to +60 frames; 1-10 steps: SELECT (sequential / index range scans, selection, projection), INSERT (also 30x repeated with rows that allocate new heap pages), UPDATE (in place and relocating), DELETE, join queries (hash / index / nested loop join as the optimizer chooses under the tables' statistics states none / computed after 2 rows / fresh, 5x repeated), statistics updates, statements that fail (unknown column/table, type error), UPDATE / DELETE statements aborted by a lock conflict with a parked transaction that wrote the table (the scan is refused) or only read it (the scan succeeds, the lock upgrade is refused); each ended by commit or abort). Oracle: with no other transaction active, every page with a positive pin count in BufferPoolManager.GetPages() after the statement and its commit/abort already had a positive pin count before it (pin-count growth on pages that were pinned before is recorded as a class, not a violation). Non-trivial = a statement that was planned and executed (plan shape recorded as class)."
 
 var assumptions = []string{
 	"CREATE TABLE is outside the statement list (each skip-list index keeps 3 pages pinned for its lifetime by design)",
